@@ -24,6 +24,28 @@ CONSTANT TableUnits
 (* ------------------------------------------------------------------------ *)
 \* em: dimensions this unit converts to through the CGS<->SI electromagnetic table (real table units only)
 UnitRec(n, d, s, o) == [name |-> n, dim |-> d, scale |-> s, off |-> o, em |-> {}]
+(* derived units: a dimension is a vector of RATIONAL exponents over the base dimensions, not an atom.  The units   *)
+(* below are rational powers / quotients of the model base units (length: la scale 1, lb scale 1024; time: ta), the *)
+(* way np.cbrt, np.sqrt, x**(1/3), 1/x, x/y produce them.  A derived unit is named by its exponents                 *)
+(* "<length base>^p/q" or "<length base>^p/q.ta^r/s"; its dimension string is computed from the NORMALISED exponents, *)
+(* so two units have the same dimension exactly when every exponent is equal as a rational number - no rounding,   *)
+(* no truncation, no comparison of the symbols alone (L^1/3 is not 1, L^4/3 is not L, L^2/3 is not L^1/2,          *)
+(* L^-1 and L^2 are not L, L/T is not T/L).                                                                        *)
+RStr(r) == ToString(r[1]) \o "/" \o ToString(r[2])
+\* 33/100 next to 1/3: exponents 1/300 apart (a comparison with a tolerance, or of rounded floats, cannot tell them apart)
+DExpL == {<<-1,1>>, <<-1,3>>, <<0,1>>, <<1,5>>, <<33,100>>, <<1,3>>, <<1,2>>, <<2,3>>, <<1,1>>, <<4,3>>, <<3,2>>, <<2,1>>}
+DExpT == {<<-1,1>>, <<0,1>>, <<1,1>>}
+\* lb = 1024 la: a power p/q of lb has the rational scale 2^(10p/q) only when q divides 10p
+DExps == {e \in (DExpL \X DExpT) \X {"la","lb"} :
+            /\ ~(e[1][2] = RZero /\ e[1][1] \in {RZero, ROne}) /\ ~(e[1][1] = RZero /\ e[1][2] = ROne)
+            /\ (e[2] = "lb" => e[1][1] # RZero /\ (10 * e[1][1][1]) % e[1][1][2] = 0 /\ e[1][2] = RZero
+                                /\ (10 * e[1][1][1]) \div e[1][1][2] \in -10..15)}   \* scales 2^-10 .. 2^15: observed floats snap exactly
+DName(e) == e[2] \o "^" \o RStr(e[1][1]) \o (IF e[1][2] = RZero THEN "" ELSE ".ta^" \o RStr(e[1][2]))
+DTable == [n \in {DName(e) : e \in DExps} |-> CHOOSE e \in DExps : DName(e) = n]
+DDim(el, et) == IF el = RZero /\ et = RZero THEN "1" ELSE IF el = ROne /\ et = RZero THEN "L" ELSE IF el = RZero /\ et = ROne THEN "T"
+                ELSE "L^" \o RStr(el) \o ".T^" \o RStr(et)
+DUnitRec(n, e) == UnitRec(n, DDim(Norm(e[1][1][1], e[1][1][2]), Norm(e[1][2][1], e[1][2][2])),
+                          IF e[2] = "lb" THEN RPow(R(2), (10 * e[1][1][1]) \div e[1][1][2]) ELSE ROne, RZero)
 U(n) ==
   CASE n = "la" -> UnitRec(n, "L", R(1), RZero)
     [] n = "lb" -> UnitRec(n, "L", R(1024), RZero)
@@ -42,6 +64,7 @@ U(n) ==
     [] n = "delta_degF" -> UnitRec(n, "Th", <<5,9>>, RZero)
     [] n = "C" -> UnitRec(n, "Qm", R(1), RZero)
     [] n = "statC" -> UnitRec(n, "Qc", R(1), RZero)
+    [] n \in DOMAIN DTable -> DUnitRec(n, DTable[n])
     [] OTHER -> TableUnits[n]
 AllUnitNames == {"la","lb","ta","ma","nd","nq","pc","lr","rad","K","R","degC","degF","delta_degC","delta_degF","C","statC"}
 Dimless == U("nd")
